@@ -1,5 +1,5 @@
 """C09 the JSON session answers every request and never dies."""
-REG_DRAFT = dict(
+REG = dict(
     engine='E2-bfs',
     technique='explicit-state breadth-first search over request histories of the real JSON-session handler, canonical-state deduplication, differential cross-check of merged states',
     text="Alphabet of 23 requests (12 evaluations incl. definitions/failing calls/a failing test, 9 REPL commands :skip :replace :abort :resume :forget :forget_local :test :type :locals, one eval_up_to, one malformed line). BFS over all histories of depth <=3 (quick) / <=5 (thorough), deduplicated by canon(Env); every transition is one fresh session executed by handle_request_in_worker. Oracle per request: exactly one non-printed response, no panic escapes, and one more request (`1 + 2`) is answered by exactly one response. Violations are confirmed on `garden reftest-json-session` and on a real `garden json` process (Content-Length framing, exit status 101 / missing responses).",
